@@ -14,7 +14,7 @@
 (*      absent point); transactions are atomic (db_stress events: no read  *)
 (*      may be torn; design-level model in FfiDatabase_MC.tla).            *)
 (***************************************************************************)
-EXTENDS ModbusPdu, Mbap, Json, IOUtils, TLC, SequencesExt
+EXTENDS ModbusPdu, Mbap, Json, IOUtils, TLC, SequencesExt, Rtu
 
 Rec == ndJsonDeserialize(IOEnv.TRACE)
 
@@ -243,7 +243,29 @@ OnDecode ==
   /\ (Len(Ev.rust) > 0) <=> (Ev.level[1] + Ev.level[2] + Ev.level[3] > 0)
   /\ UNCHANGED <<kind, cur, db>> /\ Step
 
-TraceNext == OnDecode \/ OnRetry \/ OnQCall \/ OnQCb \/ OnQEnd \/ OnCfg \/ OnEndScenario \/ OnWr \/ OnCreate \/ OnState \/ OnCallOther \/ OnReq \/ OnCall \/ OnWire \/ OnCb
+(***************************************************************************)
+(* RTU channel / RTU server created through the C ABI (the serial port is  *)
+(* the verif-hooks port opener): path and every serial setting reach the   *)
+(* task as their same-named Rust values on every attempt to open the port, *)
+(* PortState is reported by name (Disabled, Wait while the port is         *)
+(* missing, Open, Shutdown), and the traffic is RTU framed.                *)
+(***************************************************************************)
+SameSettings(c, s) ==
+  /\ s.path = c.path /\ s.baud = c.baud /\ s.data_bits = c.data_bits /\ s.flow = c.flow
+  /\ s.parity = c.parity /\ s.stop = c.stop
+OnRtu ==
+  /\ Is("ffi_rtu") /\ kind = "rtu_cabi"
+  /\ Ev.create_rc = PeOk
+  /\ Len(Ev.seen) >= 1 /\ \A i \in 1..Len(Ev.seen) : SameSettings(Ev.cfg, Ev.seen[i])
+  /\ IF Ev.role = "client"
+     THEN /\ Len(Ev.seen) >= 3                          \* two failed attempts while the port was missing, then the open
+          /\ Ev.states = <<"Disabled", "Wait", "Open", "Shutdown">>
+          /\ Ev.tx = RtuFrame(Ev.cfg.unit, <<3, 0, 7, 0, 2>>)
+          /\ Ev.result = "ok:4660@7,43981@8"
+     ELSE Ev.tx = RtuFrame(Ev.cfg.unit, <<3, 4, 0, 0, 0, 0>>)
+  /\ UNCHANGED <<kind, cur, db>> /\ Step
+
+TraceNext == OnRtu \/ OnDecode \/ OnRetry \/ OnQCall \/ OnQCb \/ OnQEnd \/ OnCfg \/ OnEndScenario \/ OnWr \/ OnCreate \/ OnState \/ OnCallOther \/ OnReq \/ OnCall \/ OnWire \/ OnCb
              \/ OnReqEnd \/ OnTxn \/ OnTxnEnd \/ OnDbOp \/ OnDbRead \/ OnStress
 
 TraceSpec == TraceInit /\ [][TraceNext]_vars
